@@ -28,13 +28,15 @@ func Less(a, b int) bool {
 // Equiv: a and b compare equal under the configured comparator (term, no forking).
 func Equiv(a, b int) bool { return key(a) == key(b) }
 
-// Cmp is the comparator handed to the library; every call is counted (property C07).
+// Cmp is the comparator handed to the library; every call is counted (property C07). Configuration "mag" is the
+// magnitude of its non-zero results (a comparator need not return exactly -1/+1: `a.prio - b.prio` style).
 func Cmp(a, b int) int {
 	v.Tick("cmp")
+	m := v.CfgOr("mag", 1)
 	if v.CfgOr("cmp", 0) == 1 {
-		return cmp.Compare(key(b), key(a))
+		return m * cmp.Compare(key(b), key(a))
 	}
-	return cmp.Compare(key(a), key(b))
+	return m * cmp.Compare(key(a), key(b))
 }
 
 // Item is one element of an in-order sequence: a forced node (K,V) or an unexpanded subtree (T != nil).
